@@ -106,7 +106,7 @@ def check(run):
         rast = astq.Ast(common.ast_json(run, src, "c07_refs_%s" % ("nd" if nd else "dbg"), ndebug=nd, funcs="@none@", refs=True))
         fresh_rule(run, r[0], rast)
         crules.next_rules(run, "C07-x1", r[1], ast)
-        crules.hash_rules(run, "C07-x2", "C07-x3", r[1], "C07-x4", "C07-x5", ast)
+        crules.hash_rules(run, r[1], "C07-x3", r[1], "C07-x4", "C07-x5", ast)      # accept: every update searches anew (no shortcut that keeps the previous parameters)
         install_rule(run, r[1], ast)
         from . import c09
         crules.phase_rules(run, r[1], ast)
